@@ -404,9 +404,9 @@ class SpaceTranslator(ParentTranslator):
         if {idx_args} in self._v_{name}:
             return self._v_{name}[{idx_args}]
         else:
-            val = self._f_{name}({args})
-            self._v_{name}[{idx_args}] = val
-            return val
+            _mx_val = self._f_{name}({args})
+            self._v_{name}[{idx_args}] = _mx_val
+            return _mx_val
 
     """)
 
